@@ -274,10 +274,47 @@ pub fn gen_case(rng: &mut Rng) -> Case {
             cov: gen_cov(rng),
         });
     }
+    // name collisions in the covdir `children` object (about one case in 14): a file without
+    // extension named like a directory that other files live in, or the same rel path twice
+    if !files.is_empty() && rng.chance(1, 14) {
+        let k = rng.below(files.len() as u64) as usize;
+        let parts: Vec<&str> = files[k].rel.split('/').collect();
+        // (only below a file that is filed under its relative path: the two then collide in the tree,
+        // and the html writer – which would find a directory where the source should be – is skipped)
+        if parts.len() >= 2 && !files[k].rel_abs && rng.chance(2, 3) {
+            let depth = rng.range(1, parts.len() as u64 - 1) as usize;
+            let rel = parts[..depth].join("/");
+            if !files.iter().any(|f| f.rel == rel) {
+                files.push(FileCase { rel, rel_abs: false, exists: false, cov: gen_cov(rng) });
+            }
+        } else {
+            let mut dup = files[k].clone();
+            dup.cov = gen_cov(rng);
+            files.push(dup);
+        }
+    }
     Case {
         files,
         precision: rng.below(5) as usize,
         branch: rng.chance(1, 2),
         threads: rng.range(1, 3) as usize,
     }
+}
+
+/// the paths the covdir writer files the results under collide: two results at the same path, or a
+/// file whose path is a directory of another result (the guard `PGuard` of Props/C13Docs.lean fails)
+pub fn has_name_collision(env: &Env, case: &Case) -> bool {
+    let paths: Vec<Vec<Vec<u8>>> = case
+        .files
+        .iter()
+        .map(|f| if f.rel_abs { comps(&env.abs(f)) } else { comps(Path::new(&f.rel)) })
+        .collect();
+    for (i, p) in paths.iter().enumerate() {
+        for (j, q) in paths.iter().enumerate() {
+            if i != j && (p == q || (q.len() > p.len() && q[..p.len()] == p[..])) {
+                return true;
+            }
+        }
+    }
+    false
 }
